@@ -334,6 +334,26 @@ def run(ctx):
             alts = n[1] if n[0] == "phi" else (n,)
             alts = [uncast(x) for x in alts if x != ("int", 0)]
             from lib import through_conversions
+            # `send_to(..).ok().unwrap_or(0)`, `send_to(..).unwrap_or(0)`, `send_to(..).as_ref().map_or(0, |n| *n)`: the payload, or 0 for a failed send
+            norm_alts = []
+            for x in alts:
+                for _ in range(3):
+                    if is_call(x) and callee_name(x[1]) in ("unwrap_or", "unwrap_or_default") and x[2] and (len(x[2]) == 1 or x[2][1] == ("int", 0)):
+                        x = ("vfield", x[2][0], "Some" if "option::Option" in x[1] else "Ok", 0)
+                    elif is_call(x) and callee_name(x[1]) == "map_or" and len(x[2]) == 3 and x[2][1] == ("int", 0) and isinstance(x[2][2], tuple) and x[2][2][0] == "closure":
+                        K = P.fns.get(x[2][2][1])
+                        kr = values.strip_payload(W.ev(K.path).ret()) if K is not None else None
+                        if kr == ("param", K.path, 2):
+                            inner = x[2][0]
+                            while is_call(inner) and callee_name(inner[1]) in ("as_ref", "as_deref", "copied", "cloned") and inner[2]:
+                                inner = inner[2][0]
+                            x = ("vfield", inner, "Some" if "option::Option" in x[1] else "Ok", 0)
+                        else:
+                            break
+                    else:
+                        break
+                norm_alts.append(uncast(x))
+            alts = norm_alts
             okn = len(alts) == 1 and alts[0][0] == "vfield" and alts[0][2] in ("Ok", "Some") and is_call(through_conversions(alts[0])[0]) and through_conversions(alts[0])[0][3] == (sr.path, sb) \
                 and strip_generics(through_conversions(alts[0])[0][1]).endswith("UdpSocket::send_to")
             if not okn and len(alts) == 1:
